@@ -26,7 +26,7 @@ func init() {
 		MinDistinct: 100,
 		Plan: func(tier string) []core.Suite {
 			if tier == "thorough" {
-				return []core.Suite{{Name: "ops", N: 150000}}
+				return []core.Suite{{Name: "ops", N: 800000}}
 			}
 			return []core.Suite{{Name: "ops", N: 12000}}
 		},
